@@ -32,6 +32,7 @@ RULE = (
 RULE += ' added since: stateful output codecs, corrupted declarations, module-head options (future_imports / imports) around the coding line, get_def(..).render identity of encoded output. the output identities also on templates built by a TemplateLookup that carries output_encoding / encoding_errors. lone surrogates under nine error handlers and ten output codecs through Template, TemplateLookup and get_def. ModuleTemplate and ModuleTemplate.get_def as routes of the unencodable-everywhere scenario.'
 ASSUMPTIONS = ["CPython codecs are the reference; only ASCII-compatible encodings are in scope"]
 MIN_NONTRIVIAL = 200
+RULE += " def defaults that spell a character outside the file's codec as an escape."
 RULE += " declaration lines longer than 128 and 200 bytes (text before, or an editor modeline after, the coding declaration)."
 REQUIRED_COUNTERS = ["renders_compared", "expected_compile_errors_seen", "module_reloads", "fresh_process_reloads", "output_encodings_compared", "strict_encode_errors_matched"]
 REQUIRED_COUNTERS += ["unencodable_everywhere_compared"]
@@ -106,7 +107,7 @@ def gen_template(r, codec):
     parts.append(t)
     exp.append(t)
     for _ in range(r.randint(2, 6)):
-        k = r.randrange(6)
+        k = r.randrange(7)
         v = w()
         if k == 0:
             parts.append("${'%s'}" % v)
@@ -122,6 +123,11 @@ def gen_template(r, codec):
             nm = "h%d" % len(parts)
             parts.append("<%%def name=\"%s(a)\">(${a})</%%def><%%self:%s a=\"%s\"/>" % (nm, nm, v))
             exp.append("(" + v + ")")
+        elif k == 6:
+            # a character that the file's codec does not have, written as an escape (ASCII) in a def default
+            nm = "e%d" % len(parts)
+            parts.append("<%%def name=\"%s(a='\\U0001f600%s')\">{${a}}</%%def>${%s()}" % (nm, v, nm))
+            exp.append("{\U0001f600" + v + "}")
         elif k == 4:
             parts.append("\n%% if True:\n%s\n%% endif\n" % v)
             exp.append("\n" + v + "\n")
